@@ -1,37 +1,68 @@
 (* C19 - the certification service never lets a deviating step pass *)
-From VL Require Import Base Json Schema Wire Idl Codec Cert.
+From Coq Require Import List Arith.
+From VL Require Import Base Json Schema Wire Idl Codec Cert CertSrc CertFacts.
+From VLG Require Import CertGen.
 
-Theorem C19_success_only_for_canonical : forall env fields canon st k q st',
-  cert_call env fields canon st k q = (st', CSuccess) ->
+(* [next] (the transition table) and [keeps] (what a rejected call does to the stored step) are parameters of the
+   model; the statements marked "src" instantiate them at the values regenerated from main.rs *)
+Theorem C19_success_only_for_canonical : forall env fields canon next keeps st k q st',
+  cert_call env fields canon next keeps st k q = (st', CSuccess) ->
   mode_ok (mode_of k) q = true /\
   exists j c, r_params q = Some j /\ client_of j = Some c /\ cget st c = Some k /\ matches env fields canon k c j = true.
 Proof. exact success_only_for_canonical. Qed.
 Print Assumptions C19_success_only_for_canonical.
 
-Theorem C19_wrong_mode_never_succeeds : forall env fields canon st k q,
-  mode_ok (mode_of k) q = false -> snd (cert_call env fields canon st k q) <> CSuccess.
+Theorem C19_wrong_mode_never_succeeds : forall env fields canon next keeps st k q,
+  mode_ok (mode_of k) q = false -> snd (cert_call env fields canon next keeps st k q) <> CSuccess.
 Proof. exact wrong_mode_never_succeeds. Qed.
 Print Assumptions C19_wrong_mode_never_succeeds.
 
-Theorem C19_wrong_step_never_succeeds : forall env fields canon st k q j c, r_params q = Some j -> client_of j = Some c ->
-  cget st c <> Some k -> snd (cert_call env fields canon st k q) <> CSuccess.
+Theorem C19_wrong_step_never_succeeds : forall env fields canon next keeps st k q j c, r_params q = Some j -> client_of j = Some c ->
+  cget st c <> Some k -> snd (cert_call env fields canon next keeps st k q) <> CSuccess.
 Proof. exact wrong_step_never_succeeds. Qed.
 Print Assumptions C19_wrong_step_never_succeeds.
 
-Theorem C19_wrong_parameters_never_succeed : forall env fields canon st k q j c, r_params q = Some j -> client_of j = Some c ->
-  matches env fields canon k c j = false -> snd (cert_call env fields canon st k q) <> CSuccess.
+Theorem C19_wrong_parameters_never_succeed : forall env fields canon next keeps st k q j c, r_params q = Some j -> client_of j = Some c ->
+  matches env fields canon k c j = false -> snd (cert_call env fields canon next keeps st k q) <> CSuccess.
 Proof. exact wrong_parameters_never_succeed. Qed.
 Print Assumptions C19_wrong_parameters_never_succeed.
 
-Theorem C19_other_clients_unaffected : forall env fields canon st k q c',
+Theorem C19_other_clients_unaffected : forall env fields canon next keeps st k q c',
   (forall j c, r_params q = Some j -> client_of j = Some c -> c <> c') ->
-  cget (fst (cert_call env fields canon st k q)) c' = cget st c'.
+  cget (fst (cert_call env fields canon next keeps st k q)) c' = cget st c'.
 Proof. exact other_clients_unaffected. Qed.
 Print Assumptions C19_other_clients_unaffected.
 
-Theorem C19_canonical_call_succeeds : forall env fields canon st k q j c, r_params q = Some j -> client_of j = Some c ->
+Theorem C19_canonical_call_succeeds : forall env fields canon next keeps st k q j c, r_params q = Some j -> client_of j = Some c ->
   read_params env fields k j <> None -> cget st c = Some k -> mode_ok (mode_of k) q = true ->
   matches env fields canon k c j = true ->
-  snd (cert_call env fields canon st k q) = CSuccess /\ cget (fst (cert_call env fields canon st k q)) c = Some (S k).
+  snd (cert_call env fields canon next keeps st k q) = CSuccess /\
+  cget (fst (cert_call env fields canon next keeps st k q)) c = Some (next k).
 Proof. exact canonical_call_succeeds. Qed.
 Print Assumptions C19_canonical_call_succeeds.
+
+(* src: a call rejected as out of order or malformed moves nobody *)
+Theorem C19_rejected_call_keeps_state : forall env fields canon st k q,
+  snd (src_cert_call env fields canon st k q) = CClientIdError \/ snd (src_cert_call env fields canon st k q) = CInvalidParameter ->
+  fst (src_cert_call env fields canon st k q) = st.
+Proof. intros env fields canon st k q. exact (rejected_call_keeps_state env fields canon src_next _ st k q src_keeps). Qed.
+Print Assumptions C19_rejected_call_keeps_state.
+
+(* src: for every history of calls of one client, in any order and with any parameters, the steps the service consumes
+   (answers with success or a certification error) are exactly the canonical chain from the client's expected step;
+   so "a step out of order" never gets a success reply, however the history tries to get there *)
+Theorem C19_consumed_steps_in_canonical_order : forall env fields canon c calls st e,
+  cget st c = Some e -> Forall (fun kq => by_client c (snd kq)) calls ->
+  chain src_next e (consumed_steps (snd (run env fields canon src_next rejected_call_keeps_step st calls))).
+Proof. intros env fields canon c. exact (consumed_steps_in_canonical_order env fields canon src_next _ c src_keeps). Qed.
+Print Assumptions C19_consumed_steps_in_canonical_order.
+
+(* src: the chain is Test01 .. Test11, End, End, ... and a new client starts at Test01 *)
+Theorem C19_chain_is_the_certification_sequence : forall k, 1 <= k <= 12 ->
+  src_next k = if Nat.eqb k 12 then 12 else S k.
+Proof. exact src_next_spec. Qed.
+Print Assumptions C19_chain_is_the_certification_sequence.
+
+Theorem C19_new_client_starts_at_first_step : src_first_step = Some 1.
+Proof. exact src_first. Qed.
+Print Assumptions C19_new_client_starts_at_first_step.
